@@ -41,7 +41,7 @@ static int inv(void);
 static void exhaust(int digest, int L, int nr, const unsigned char *reps, int do_end);
 static void witness(const unsigned char *str, int n, int do_end);
 /* ---- exhaustive chunk-schedule exploration inside C ---- */
-static long NFEED, NSCHED, NSTR, NDIFF, NINV; static unsigned GMASK;
+static long NFEED, NSCHED, NSTR, NDIFF, NINV, NLIVE; static unsigned GMASK;
 static int ptrs_null(void);
 static void run_one(const unsigned char *s, int n, unsigned mask, int do_end){
   shim_release(); memset(ST, 0, sizeof(PSTATE_T)); install_hooks();
@@ -89,7 +89,7 @@ static void run_one(const unsigned char *s, int n, unsigned mask, int do_end){
       if (r == 0) break;
       if (r >= FIRST_YIELD){
         out8('Y'); out8(r); out32(NOOFF ? 0 : cur);
-        if (++guard > 4 * (b - a) + 8){ out8('L'); term = 1; break; }
+        if (++guard > 4 * (b - a) + 8){ out8('L'); NLIVE++; term = 1; break; }   /* yields for ever without getting through the chunk */
         /* the documented driver loop re-invokes feed after EVERY yield with the pointer left as-is, also when the chunk is used up */
         continue;
       }
@@ -98,7 +98,15 @@ static void run_one(const unsigned char *s, int n, unsigned mask, int do_end){
     free(buf); a = b;
   }
 #if EOFS
-  if (!term && do_end){ CUR_PP = NULL; r = PEND(ST); out8('E'); out8(r); { int iv = inv(); if (iv){ out8('V'); out8(iv); NINV++; } } }
+  if (!term && do_end){
+    /* end() may yield as well (a token still pending at end-of-input); the caller calls it again until it gives a final code */
+    int eguard = 0;
+    for (;;){
+      CUR_PP = NULL; r = PEND(ST); out8('E'); out8(r); { int iv = inv(); if (iv){ out8('V'); out8(iv); NINV++; } }
+      if (r < FIRST_YIELD) break;
+      if (++eguard > 12){ out8('L'); NLIVE++; break; }
+    }
+  }
 #endif
   out8('N'); out32(0); snapn();
   shim_free();                                /* the parser's own free function (when it has one) */
@@ -110,7 +118,7 @@ static void exhaust(int digest, int L, int nr, const unsigned char *reps, int do
   unsigned char *save = OUTB; size_t saven = OUTN, savecap = OUTCAP;
   unsigned char *refb = NULL; size_t refn = 0, refcap = 0;
   NORM = 1;
-  NFEED = NSCHED = NSTR = NDIFF = NINV = 0;
+  NFEED = NSCHED = NSTR = NDIFF = NINV = NLIVE = 0;
   unsigned char *res = NULL; size_t resn = 0, rescap = 0;
   for (int n = 0; n <= L; n++){
     for (int i = 0; i < n; i++) idx[i] = 0;
@@ -146,7 +154,7 @@ static void exhaust(int digest, int L, int nr, const unsigned char *reps, int do
   }
   NORM = 0; NOOFF = 0;
   OUTB = save; OUTN = saven; OUTCAP = savecap;
-  out8(digest ? 'G' : 'X'); out64(NSTR); out64(NSCHED); out64(NFEED); out64(NDIFF); out64(NINV);
+  out8(digest ? 'G' : 'X'); out64(NSTR); out64(NSCHED); out64(NFEED); out64(NDIFF); out64(NINV); out64(NLIVE);
   out32((int)resn); outb(res, resn);
   free(res); free(refb);
 }
@@ -576,11 +584,11 @@ class CProg:
                     recs.append(("W", dict(schedules=ns, diffs=nd, mask=bm)))
                     pos += 21
                 elif k in (b"X", b"G"):
-                    nstr, nsched, nfeed, ndiff, ninv = struct.unpack_from("<qqqqq", raw, pos + 1)
-                    n = struct.unpack_from("<i", raw, pos + 41)[0]
-                    body = bytes(raw[pos + 45:pos + 45 + n])
-                    pos += 45 + n
-                    rec = dict(strings=nstr, schedules=nsched, feeds=nfeed, diffs=ndiff, invariant_hits=ninv)
+                    nstr, nsched, nfeed, ndiff, ninv, nlive = struct.unpack_from("<qqqqqq", raw, pos + 1)
+                    n = struct.unpack_from("<i", raw, pos + 49)[0]
+                    body = bytes(raw[pos + 53:pos + 53 + n])
+                    pos += 53 + n
+                    rec = dict(strings=nstr, schedules=nsched, feeds=nfeed, diffs=ndiff, invariant_hits=ninv, livelocks=nlive)
                     if k == b"G":
                         rec["digests"] = [struct.unpack_from("<Q", body, i)[0] for i in range(0, len(body), 8)]
                     else:
